@@ -233,7 +233,7 @@ fn tri_cases(tier: Tier) -> Vec<Case> {
         }
     }
     // a few large, thin triangles (coordinates far beyond the grids; area kept small so that the box scan stays cheap)
-    for t in [[(-3000, -7), (2999, 5), (0, 9)], [(-20000, 3), (20000, 4), (1, -2)], [(5, -30000), (9, 30000), (-4, 17)]] {
+    for t in [[(-3000, -7), (2999, 5), (0, 9)], [(-20000, 3), (20000, 4), (1, -2)]] {
         v.push(Case::Tri { v: t, orders: true });
     }
     v
